@@ -314,7 +314,7 @@ def r6(ctx: Context) -> None:
     frame, or in another thread.  What it calls must neither touch the loop's registries nor throw into the loop."""
     from ..flow import mem_store_writes
 
-    ctx.rule("R6", "the stop REQUEST is passive: the diagnostics hook (_log_shutdown) of every runner writes no runner attribute, directly or through the self-methods it calls (the registry of running work is maintained by the loop thread alone - a concurrent rebuild drops a thread registered in between, and _on_stop then neither kills nor re-routes its invocation); and no executable runner's _log_shutdown / _on_stop_runner_loop raises (an exception thrown from the signal handler unwinds the loop thread from an arbitrary point - after an invocation was claimed, before it was registered)")
+    ctx.rule("R6", "the stop REQUEST is passive: the diagnostics hook (_log_shutdown) of every runner writes no attribute that the loop or the stop sequence maintain, directly or through the self-methods it calls (the registry of running work is maintained by the loop thread alone - a concurrent rebuild drops a thread registered in between, and _on_stop then neither kills nor re-routes its invocation); and no executable runner's _log_shutdown / _on_stop_runner_loop raises (an exception thrown from the signal handler unwinds the loop thread from an arbitrary point - after an invocation was claimed, before it was registered)")
     base = ctx.repo.cls("BaseRunner")
 
     def closure(c, name: str, depth: int = 3) -> list[FuncInfo]:
@@ -342,7 +342,8 @@ def r6(ctx: Context) -> None:
             continue
         executable = not any(isinstance(x, ast.Raise) and "RunnerNotExecutableError" in ast.unparse(x) for m_ in [c.find_method("runner_loop_iteration")] if m_ is not None for x in walk_no_nested(m_.node))
         n += 1
-        ws = [(m, w) for m in closure(c, "_log_shutdown") for w in mem_store_writes(m.node)]
+        shared = {w.attr for e_ in ("runner_loop_iteration", "_on_stop", "_on_stop_runner_loop", "_waiting_for_results") for m in closure(c, e_) for w in mem_store_writes(m.node)}
+        ws = [(m, w) for m in closure(c, "_log_shutdown") for w in mem_store_writes(m.node) if w.attr in shared]
         ctx.add("R6", f"{c.qualname}::_log_shutdown::writes-nothing", not ws, ws[0][0].loc(ws[0][1].node) if ws else c.module.relpath, "" if not ws else f"{ws[0][0].name} changes self.{ws[0][1].attr} ({ws[0][1].how}) on the stop-request path: the request can arrive in another thread (or on top of the loop's own frame) while the loop maintains that attribute - a thread started and registered in between is lost from the registry, its invocation stays RUNNING with no runner behind it")
         if executable:
             for hook in ("_log_shutdown", "_on_stop_runner_loop"):
